@@ -111,6 +111,30 @@ func deepCopy(x interface{}) (interface{}, error) {
 	return core.Canonicalize(x)
 }
 
+// copyProps copies the maps and slices in the given value so that a
+// script can't change the caller's step properties (StepProps.Copy
+// only copies the top level).  Other values, such as the context or
+// the crew that a host puts there, are passed along as they are (so we
+// can't just go through JSON as deepCopy does).
+func copyProps(x interface{}) interface{} {
+	switch vv := x.(type) {
+	case map[string]interface{}:
+		acc := make(map[string]interface{}, len(vv))
+		for k, v := range vv {
+			acc[k] = copyProps(v)
+		}
+		return acc
+	case []interface{}:
+		acc := make([]interface{}, len(vv))
+		for i, v := range vv {
+			acc[i] = copyProps(v)
+		}
+		return acc
+	default:
+		return x
+	}
+}
+
 // Exec implements the Interpreter method of the same name.
 //
 // The following properties are available from the runtime at _.
@@ -156,7 +180,7 @@ func (i *Interpreter) Exec(ctx context.Context, bs match.Bindings, props core.St
 	if props == nil {
 		env["props"] = map[string]interface{}{}
 	} else {
-		env["props"] = map[string]interface{}(props.Copy())
+		env["props"] = copyProps(map[string]interface{}(props))
 	}
 
 	if bs != nil {
